@@ -21,6 +21,7 @@ const DEFAULT_SEED: u64 = 0x1D5EED;
 fn engine_by_name(name: &str) -> Option<Box<dyn Engine>> {
   match name {
     "res" => Some(Box::new(engines::res::ResEngine)),
+    "ks" => Some(Box::new(engines::ks::KsEngine)),
     _ => None,
   }
 }
@@ -43,6 +44,14 @@ fn plan_for(property: &str) -> Option<Plan> {
       thorough_runs: 40_000_000,
       params_quick: &[("max_list", 8)],
       params_thorough: &[("max_list", 8)],
+    },
+    "C15" => Plan {
+      engine: "ks",
+      level: "exploration",
+      quick_runs: 150_000,
+      thorough_runs: 20_000_000,
+      params_quick: &[("max_clients", 16)],
+      params_thorough: &[("max_clients", 16)],
     },
     _ => return None,
   })
